@@ -1,7 +1,9 @@
 package par
 
 import (
+	"os"
 	"runtime"
+	"strconv"
 	"sync"
 	"sync/atomic"
 )
@@ -9,6 +11,11 @@ import (
 // For runs f(i) for i in [0,n) on all cores; stop() is polled between items.
 func For(n int, f func(i int), stop func() bool) (done int) {
 	w := runtime.NumCPU()
+	// VERIF_PAR_WORKERS=1 runs the sequential phases on one goroutine (used to see whether a concurrency
+	// defect is found by the scheduler phases rather than by the free-running case runner)
+	if v, err := strconv.Atoi(os.Getenv("VERIF_PAR_WORKERS")); err == nil && v > 0 {
+		w = v
+	}
 	if w > n {
 		w = n
 	}
